@@ -3984,6 +3984,10 @@ class Client:
             rc = MQTTErrorCode.MQTT_ERR_SUCCESS
             with self._out_message_mutex:
                 for m in self._out_messages.values():
+                    if self._sock is None:
+                        # The connection was lost while retransmitting (a write
+                        # failed): the remaining messages have not been sent.
+                        return MQTTErrorCode.MQTT_ERR_NO_CONN
                     m.timestamp = time_func()
                     if m.state == mqtt_ms_queued:
                         self.loop_write()  # Process outgoing messages that have just been queued up
@@ -4265,6 +4269,9 @@ class Client:
     def _update_inflight(self) -> MQTTErrorCode:
         # Dont lock message_mutex here
         for m in self._out_messages.values():
+            if self._sock is None:
+                # nothing can be sent: leave the waiting messages queued
+                return MQTTErrorCode.MQTT_ERR_NO_CONN
             if self._inflight_messages < self._max_inflight_messages:
                 if m.qos > 0 and m.state == mqtt_ms_queued:
                     self._inflight_messages += 1
